@@ -1699,6 +1699,16 @@ impl Universe {
             out.attacks_failed += 1;
             return false;
         }
+        // placeholders in mount targets: @W0 = thread id of caller thread 0, @S1 = descriptor number
+        // kept in slot 1 (the magic-link /proc/<pid>/task/<tid>/fd/<n> of a handle the caller holds)
+        let expand = |p: &str| p.replace("@W0", &self.workers.first().map(|w| w.tid).unwrap_or(0).to_string()).replace("@S1", &ops::slot(1).to_string());
+        let expanded = match m {
+            Mutation::MountOn { src, dst, nofollow } if dst.contains('@') => Some(Mutation::MountOn { src: src.clone(), dst: expand(dst), nofollow: *nofollow }),
+            Mutation::Umount { path } if path.contains('@') => Some(Mutation::Umount { path: expand(path) }),
+            _ => None,
+        };
+        let kind = m.kind();
+        let m = expanded.as_ref().unwrap_or(m);
         let r = match world.as_mut() {
             Some(w) => w.apply(m),
             None => {
@@ -1706,6 +1716,10 @@ impl Universe {
                 dummy.apply(m)
             }
         };
+        let _ = kind;
+        if std::env::var_os("VERIF_DEBUG_MUT").is_some() {
+            eprintln!("apply {:?} => {:?}", m.to_json().to_string(), r);
+        }
         match r {
             Ok(true) => {
                 *out.attacks_applied.entry(m.kind().into()).or_insert(0) += 1;
